@@ -4,7 +4,7 @@
 From Coq Require Import NArith List Bool Lia ZArith.
 From Coq Require Import ZifyN ZifyBool ZifyNat.
 From DV Require Import Base.Outcome Base.Bytes Base.Names Base.PName C02.Gen C02.Model
-  C02.ProofsBasic C02.ProofsRun C02.ProofsName C02.ProofsComp C02.ProofsStatic C02.ProofsHash C02.ProofsTop
+  C02.ProofsBasic C02.ProofsClone C02.ProofsRun C02.ProofsName C02.ProofsComp C02.ProofsStatic C02.ProofsHash C02.ProofsTop
   C02.ProofsLayout C02.ProofsRead C02.ProofsWrite C02.ProofsBuild.
 Import ListNotations.
 Local Open Scope N_scope.
@@ -301,7 +301,10 @@ Qed.
 (* --------------------------------------------------------- every operation *)
 
 Definition wf_op_sized (o : op) : Prop :=
-  wf_op o /\ match o with OpR r => rdata_ulen (r_data r) <= 65535 | _ => True end.
+  wf_op o /\ match o with
+            | OpR r => rdata_ulen (r_data r) <= 65535
+            | OpOpt oh opts => oh_hdr oh = false -> mlen (opts_bytes opts) <= 65535
+            | _ => True end.
 
 Lemma mb_push_alive c s f : BW c s -> WSpec c f -> NoDead (f (b_w s)) -> alive (snd (mb_push c s f)).
 Proof.
@@ -324,7 +327,8 @@ Proof.
   - destruct (b_sec s =? 0); [reflexivity|].
     apply mb_push_alive; auto; [apply compose_record_spec|apply compose_record_nodead; auto].
   - destruct (b_sec s =? 3); [|reflexivity]. cbn [snd].
-    apply mb_push_alive; auto; [apply compose_opt_spec|apply compose_opt_nodead; auto].
+    apply mb_push_alive; auto; [apply opt_writer_spec|].
+    destruct Hwf as (Wu & Wv & Wf). apply opt_writer_nodead; auto. apply compose_opt_nodead; auto.
   - destruct (b_sec s <? 3); reflexivity.
   - destruct (b_sec s =? 0); [reflexivity|].
     destruct (rewind_inv c s HB) as (w & _ & ER & _). rewrite ER. reflexivity.
@@ -447,8 +451,8 @@ Proof.
   - destruct (b_sec s =? 0); [|discriminate]. eapply X; [apply compose_question_spec|exact HS].
   - destruct (b_sec s =? 0); [discriminate|]. eapply X; [apply compose_record_spec|exact HS].
   - destruct (b_sec s =? 3); [|discriminate].
-    destruct (mb_push c s (compose_opt c oh opts)) as [s1 r1] eqn:EM. cbn [fst snd] in HS.
-    injection HS as <- ->. unfold set_hdr; cbn [b_w]. eapply X; [apply compose_opt_spec|exact EM].
+    destruct (mb_push c s (opt_writer c oh opts)) as [s1 r1] eqn:EM. cbn [fst snd] in HS.
+    injection HS as <- ->. unfold set_hdr; cbn [b_w]. eapply X; [apply opt_writer_spec|exact EM].
   - destruct (b_sec s <? 3); discriminate.
   - destruct (b_sec s =? 0); [discriminate|]. destruct (rewind c s); discriminate.
   - destruct (rewind c s); discriminate.
